@@ -52,8 +52,6 @@ class CalibrationMeasurementItem(EFLRItem, DimensionedItem):
     def _run_checks_and_set_defaults(self) -> None:
         """Check that the number of max/std deviations, standards, and tolerances is equal."""
 
-        self._check_axis_vs_dimension()
-
         controlled_attrs = (self.maximum_deviation, self.standard_deviation, self.standard,
                             self.plus_tolerance, self.minus_tolerance)
 
@@ -65,6 +63,8 @@ class CalibrationMeasurementItem(EFLRItem, DimensionedItem):
 
         for attr in controlled_attrs:
             self._check_or_set_value_dimensionality(attr.value, value_label=attr.label)
+
+        self._check_axis_vs_dimension()  # once the dimension is known: it may have been derived from the values just now
 
 
 class CalibrationMeasurementSet(EFLRSet):
